@@ -77,12 +77,12 @@ type refOut struct {
 }
 
 type refStep struct {
-	post     refState
-	outs     []refOut
-	newRS    string // "" unchanged, "0" cleared, "b" input byte
-	bf       string // "" don't care, "b" input
-	sxLen    string // "" n/a, "+1", "1" (restart)
-	sxTS     string // "" n/a, "now", "same"
+	post  refState
+	outs  []refOut
+	newRS string // "" unchanged, "0" cleared, "b" input byte
+	bf    string // "" don't care, "b" input
+	sxLen string // "" n/a, "+1", "1" (restart)
+	sxTS  string // "" n/a, "now", "same"
 }
 
 // refTransition: the MIDI 1.0 receiver model (DESIGN C04.3 / C06.2).
